@@ -39,7 +39,7 @@ theorem reach_dl (sk : Skeleton) {s : State} (h : Reach sk s) : DL s := by
 
 theorem cur_hyg : Hyg Skeleton.current := ⟨by decide, by decide⟩
 theorem cur_nochanclose : NoChanClose Skeleton.current := ⟨by decide, by decide⟩
-theorem cur_wakes : Wakes Skeleton.current := ⟨by decide, by decide, by decide, by decide, by decide, by decide⟩
+theorem cur_wakes : Wakes Skeleton.current := ⟨by decide, by decide, by decide, by decide, by decide, by decide, by decide⟩
 
 /-- The current source never keeps the mutex across Publish's select. -/
 theorem cur_lock_free : ∀ s, Reach Skeleton.current s → s.lockHolder = none := by
